@@ -971,9 +971,10 @@ static void build_expr(WorkList *list, ASTNode *expr, Environment *env) {
                     emit_literal(list, ")");
                 } else {
                     /* Regular binary operator */
-                    bool needs_parens = (op == TOKEN_PLUS || op == TOKEN_MINUS || 
-                                       op == TOKEN_STAR || op == TOKEN_SLASH || op == TOKEN_PERCENT ||
-                                       op == TOKEN_AND || op == TOKEN_OR);
+                    /* Every binary operator is parenthesised: operands that are themselves
+                     * comparisons (e.g. (== (!= a b) (< c d))) must keep the source grouping
+                     * rather than C's precedence, and must not trip -Werror=parentheses. */
+                    bool needs_parens = true;
                     
                     if (needs_parens) emit_literal(list, "(");
                     build_expr(list, expr->as.prefix_op.args[0], env);
@@ -1033,9 +1034,10 @@ static void build_expr(WorkList *list, ASTNode *expr, Environment *env) {
                             emit_literal(list, "({ assert(false && \"unary minus requires array<int> or array<float>\"); (DynArray*)0; })");
                         }
                     } else {
-                        emit_literal(list, "(-");
+                        /* "(-" + "-1LL" would spell the decrement operator: parenthesise the operand */
+                        emit_literal(list, "(-(");
                         build_expr(list, expr->as.prefix_op.args[0], env);
-                        emit_literal(list, ")");
+                        emit_literal(list, "))");
                     }
                 }
             }
